@@ -1,0 +1,47 @@
+//go:build verif
+
+package services
+
+import (
+	"context"
+
+	"github.com/go-logr/logr"
+	"sigs.k8s.io/controller-runtime/pkg/client"
+
+	"github.com/jcmoraisjr/haproxy-ingress/pkg/acme"
+	"github.com/jcmoraisjr/haproxy-ingress/pkg/controller/config"
+	convtypes "github.com/jcmoraisjr/haproxy-ingress/pkg/converters/types"
+	"github.com/jcmoraisjr/haproxy-ingress/pkg/haproxy"
+	"github.com/jcmoraisjr/haproxy-ingress/pkg/utils"
+)
+
+// NewVerifServices builds the services of the controller without a manager,
+// used by the verification harness only (build tag verif).
+func NewVerifServices(ctx context.Context, cli client.Client, cfg *config.Config) (*Services, error) {
+	s := &Services{Client: cli, Config: cfg}
+	s.legacylogger = initLogFactory(ctx)
+	s.log = logr.FromContextOrDiscard(ctx).WithName("services")
+	ctx = logr.NewContext(ctx, s.log)
+	if err := s.setup(ctx); err != nil {
+		return nil, err
+	}
+	return s, nil
+}
+
+// VerifCache exposes the cache facade as seen by the converters.
+func (s *Services) VerifCache() convtypes.Cache { return s.cache }
+
+// VerifAcmeCache exposes the cache facade as seen by the acme signer.
+func (s *Services) VerifAcmeCache() acme.Cache { return s.cache }
+
+// VerifConverterOptions exposes the options handed to the converters.
+func (s *Services) VerifConverterOptions() *convtypes.ConverterOptions { return s.converterOpt }
+
+// VerifInstance exposes the haproxy instance.
+func (s *Services) VerifInstance() haproxy.Instance { return s.instance }
+
+// VerifReloadQueue exposes the reload queue, nil if reload-interval is zero.
+func (s *Services) VerifReloadQueue() utils.QueueFacade { return s.reloadQueue }
+
+// VerifReload calls the callback of the reload queue.
+func (s *Services) VerifReload(ctx context.Context) error { return s.reloadHAProxy(ctx, nil) }
